@@ -847,6 +847,12 @@ func (rs *s3ClientStorage) TransitionObjectStorageClass(ctx context.Context, buc
 	if opts != nil && opts.IfMatchETag != nil {
 		input.CopySourceIfMatch = opts.IfMatchETag
 	}
+	// A copy never carries the website redirect location over from its source
+	// (it only applies when supplied on the copy request), so the object's own
+	// value is re-supplied; otherwise the transition would silently drop it.
+	if current, err := rs.HeadObject(ctx, bucketName, key, nil); err == nil {
+		input.WebsiteRedirectLocation = current.Metadata.WebsiteRedirectLocation
+	}
 	if _, err := rs.s3Client.CopyObject(ctx, input); err != nil {
 		return translateS3CopyError(err)
 	}
